@@ -87,6 +87,25 @@ theorem classify6 (g0 g1 g2 g3 g4 g5 g6 g7 : Nat)
     exact isPrivHost_mapped _ _ _ _ (by omega) (by omega) (by omega) (by omega) (by decide)
       (v4_ranges _ _ _ _ (by omega) (by omega) (by omega) (by omega) hv4)
 
+/-- **C34.classify (names)**: `localhost` in any mixture of upper and lower case (host names are case-insensitive,
+`localhost` is loopback) is classified private/reserved. -/
+theorem classify_localhost (s : Str) (h : loopbackName s) : isPrivHost s = true := by
+  unfold loopbackName at h
+  have hlow : lower s = "localhost".toList := h
+  match s, hlow with
+  | [], hlow => simp [lower] at hlow
+  | c :: t, hlow =>
+    have hc : isDigit c = false := by
+      have h0 : lowerC c = 'l' := by
+        have := congrArg List.head? hlow
+        simpa [lower] using this
+      by_cases hd : isDigit c = true
+      · have h' : 48 ≤ c.toNat ∧ c.toNat ≤ 57 := by simpa [isDigit] using hd
+        have : lowerC c = c := by unfold lowerC; rw [if_neg (by omega)]
+        rw [this] at h0; subst h0; exact absurd hd (by decide)
+      · simpa using hd
+    exact isPrivHost_reserved_name c t hc "localhost" (by decide) hlow.symm
+
 /-! ## publication
 
 `startTransport cfg stunEnabled stun echo tp` is the node right after `Node::start_transport`: `stun` is whatever the
@@ -165,6 +184,16 @@ theorem publish_routable (cfg : Cfg) (stunEnabled : Bool) (stun : Option Str) (e
     rw [classify6 g0 g1 g2 g3 g4 g5 g6 g7 h0 h1 h2 h3 h4 h5 h6 h7 hn] at h'
     cases h'
 
+/-- **C34.publish (loopback name)**: with private advertising not allowed, no spelling of `localhost` is published
+automatically (it can only come from the control host through the local-fallback candidate). -/
+theorem publish_no_loopback_name (cfg : Cfg) (stunEnabled : Bool) (stun : Option Str) (echo : Str) (tp : Nat)
+    (hpriv : cfg.allowPrivate = false) (s : Str) (hs : loopbackName s) :
+    s ∉ autoAdvertised (startTransport cfg stunEnabled stun echo tp) ++ autoHints (startTransport cfg stunEnabled stun echo tp) := by
+  intro hmem
+  have h1 := publish_filtered cfg stunEnabled stun echo tp hpriv s hmem
+  rw [classify_localhost s hs] at h1
+  cases h1
+
 /-- no automatic publication at all: the shared core of the `off` and `warn`+conflict clauses -/
 theorem publish_none_of (n : Node) (hgate : publishAuto n = false) (hman : ∀ e ∈ n.endpoints, e.manual = true) :
     autoAdvertised n = [] ∧ autoHints n = [] := by
@@ -216,7 +245,7 @@ theorem publish_warn_conflict (cfg : Cfg) (stunEnabled : Bool) (stun : Option St
 
 /-- the literals the proofs above rely on, as regenerated from the source -/
 theorem generated_literals :
-    "::" ∈ kV6Exact ∧ "::1" ∈ kV6Exact ∧ kMappedPrefix = "::ffff:" ∧ kInvalidHost = "0.0.0.0" ∧ kPreferredMethod = "stun" ∧
+    "localhost" ∈ kReservedNames ∧ "::" ∈ kV6Exact ∧ "::1" ∈ kV6Exact ∧ kMappedPrefix = "::ffff:" ∧ kInvalidHost = "0.0.0.0" ∧ kPreferredMethod = "stun" ∧
     (∀ p ∈ ["fc", "fd", "fe8", "fe9", "fea", "feb", "ff", "2001:db8"], p ∈ kV6Prefixes) := by decide
 
 -- the hypotheses are satisfiable and the conclusions are not trivially true:
@@ -224,6 +253,10 @@ example : nonRoutable4 (ip4 198 19 0 1) ∧ isPrivHost (fmt4 198 19 0 1) = true 
 example : ¬ nonRoutable4 (ip4 8 8 8 8) ∧ isPrivHost (fmt4 8 8 8 8) = false := by decide
 example : nonRoutable6 (ip6 0 0 0 0 0 0xffff 0x0a00 1) ∧ fmt6 [0, 0, 0, 0, 0, 0xffff, 0x0a00, 1] = "::ffff:10.0.0.1".toList := by decide
 example : isPrivHost (fmt6 [0x2001, 0x4860, 0x4860, 0, 0, 0, 0, 0x8888]) = false := by decide
+example : loopbackName "LocalHost".toList ∧ isPrivHost "LOCALHOST".toList = true ∧ isPrivHost "localhost.".toList = false := by decide
+/-- the local-fallback branch: STUN failed, control host is a routable literal → it is the one automatic endpoint -/
+example : autoHints (startTransport ⟨.on, false, "45.64.61.85".toList, 47777, none, none, [⟨"m.example".toList, 1, true, []⟩]⟩ true none "198.51.100.20".toList 40000)
+    = ["45.64.61.85".toList] := by decide
 /-- a public STUN address *is* published in mode on … -/
 example : autoHints (startTransport ⟨.on, false, sLoop, 47777, none, none, []⟩ true (some "45.64.61.85".toList) "198.51.100.20".toList 40000)
     = ["45.64.61.85".toList] := by decide
